@@ -12,7 +12,7 @@ def c01(ctx):
              "enumerated, in the dev and the release profile, and must be discharged by an automatic rule or a one-site reviewed "
              "argument (several with a guard fact re-checked on every run)")
     n = cr.census_for(ctx, "C01.R1", "C01", "parsing", cr.roots_front)
-    rep.floor("C01.R1", n, 90, "census sites (both profiles)")
+    rep.floor("C01.R1", n, 60, "census sites (both profiles)")
     rep.rule("C01.R2", "UNITS: every (start, end) / (start, len) / idx handed to substr, make_token_from, make_range, make_loc, advance_to and "
              "every byte range is dimensionally consistent (offset vs length), and no length taken from a converted copy of the text "
              "(to_lowercase, format ..) is used as a length of the source: with the reviewed per-caller arguments of C01.R1 this is what "
@@ -43,10 +43,10 @@ def progress_rules(ctx):
             ok = verdict is not None
             rep.ob("C01.R3", key, ok, "" if ok else "a loop in %s (line %s) has no consuming pivot: it can iterate without taking a token or character from the input" % (
                 fn.path, fn.term(head)["line"]), fn.loc(fn.term(head)["line"]), how=verdict[1] if ok else "")
-    rep.floor("C01.R3", n_loops, 10, "loops in the lexer and the parser")
+    rep.floor("C01.R3", n_loops, 6, "loops in the lexer and the parser")
     edges, cycles, n_edges, n_guarded = progress.recursion_cycles(F)
     rep.notes["parser_call_edges"] = {"total": n_edges, "guarded_by_consumption": n_guarded}
-    rep.floor("C01.R4", n_edges, 100, "parser call edges")
+    rep.floor("C01.R4", n_edges, 60, "parser call edges")
     seen = set()
     for cyc in cycles:
         k = "->".join(x.rsplit("::", 1)[-1] for x in cyc)
